@@ -158,3 +158,27 @@
 //@   before1 /lib = lib\.structs\(structs\);|let vp_lib = lib\.build\(\)\?;/
 //|         let ghost lf = lib; let ghost sf = structs@;
 //@ end
+}
+impl GdsReader {
+    //@ pin gds21/src/read.rs :: impl<'a> GdsReader<Cursor<&'a [u8]>> :: fn from_bytes @d309c0ee
+    /// model of GdsReader::from_bytes (`GdsReader::new(Cursor::new(bytes))`): a reader over exactly these bytes, positioned at their start
+    #[verifier::external_body]
+    pub fn from_bytes(bytes: &[u8]) -> (r: Self) ensures r.source.data@ == bytes@, r.source.pos == 0 { unimplemented!() }
+}
+impl GdsParser {
+//@ fn gds21/src/read.rs :: impl<'a> GdsParser<Cursor<&'a [u8]>> :: fn from_bytes
+//@   ret r
+//@   sub R5 /bytes: &'a \[u8\]/ => bytes: &[u8]
+//@   spec
+//|     ensures r is Ok ==> pwf(r->Ok_0) && r->Ok_0.rdr.source.data@ == bytes@ && at(r->Ok_0, 1),
+//@ end
+}
+impl GdsLibrary {
+//@ fn gds21/src/data.rs :: impl GdsLibrary :: fn from_bytes
+//@   ret r
+//@   sub R3 /GdsParser::from_bytes\(bytes\)\?\.parse_lib\(\)/ => { let mut vp_p = GdsParser::from_bytes(bytes)?; let ghost vp_pre = vp_p; let vp_r = vp_p.parse_lib(); proof { if vp_r is Ok { assert forall|lib: GdsLibrary| cstream(bytes@) == lib_c(lib) implies lib_same(vp_r->Ok_0, lib) by { theorem_write_then_read(vp_pre, vp_p, vp_r->Ok_0, lib, lib.units.0, lib.units.1); } } } vp_r }
+//@   spec
+//|     // THE PUBLIC READER (C01 / C03): if the independent decoder reads the canonical records of a library `lib` from `bytes` - which is what
+//|     // GdsWriter::write_lib is proved to produce for `lib` (unit gds_tree) - then whatever library from_bytes returns is `lib`
+//|     ensures r is Ok ==> forall|lib: GdsLibrary| cstream(bytes@) == lib_c(lib) ==> lib_same(r->Ok_0, lib),
+//@ end
